@@ -602,6 +602,43 @@ impl<'a> Gen<'a> {
                     write!(s, "let ({}) = {}; ", pats.join(", "), name).unwrap();
                 }
             }
+            5 | 6 if self.cfg.traits => {
+                // an effectful trait method called for effect in every call form and statement position
+                self.feat("effect-method-call");
+                let recv_ty = if self.rng.chance(1, 2) { T::I32 } else { T::Struct(0) };
+                let mut pre = String::new();
+                let v = self.expr(&recv_ty, sc, depth.min(1), &mut pre);
+                let x = self.fresh("pk");
+                write!(s, "{}let {}: {} = {}; ", pre, x, self.ty_text(&recv_ty), v).unwrap();
+                let call = match self.rng.below(4) {
+                    0 => format!("Poke::poke({})", x),
+                    1 => format!("poke_via({})", x),
+                    2 => {
+                        let d = self.fresh("pd");
+                        write!(s, "let {}: dyn Poke = {}; ", d, x).unwrap();
+                        format!("Poke::poke({})", d)
+                    }
+                    _ => format!("Poke::poke({})", x),
+                };
+                match self.rng.below(5) {
+                    0 => write!(s, "{}; ", call).unwrap(),
+                    1 => write!(s, "let _ = {}; ", call).unwrap(),
+                    2 => {
+                        // tail of a loop body
+                        let c = self.fresh("i");
+                        write!(s, "let {c} = ref(0); while ref_get({c}) < 2 {{ let _ = ref_set({c}, ref_get({c}) + 1); {call} }}; ", c = c, call = call).unwrap();
+                    }
+                    3 => {
+                        // tail of a branch that is the tail of a loop body
+                        let c = self.fresh("i");
+                        write!(s, "let {c} = ref(0); while ref_get({c}) < 2 {{ let _ = ref_set({c}, ref_get({c}) + 1); if ref_get({c}) > 1 {{ {call} }} else {{ () }} }}; ", c = c, call = call).unwrap();
+                    }
+                    _ => {
+                        // tail of a match arm evaluated for effect
+                        write!(s, "let _ = match ref_get(ref(1)) {{ 0 => (), _ => {call}, }}; ", call = call).unwrap();
+                    }
+                }
+            }
             4 if self.cfg.go_stmt => {
                 self.feat("go");
                 let mut pre = String::new();
@@ -731,6 +768,10 @@ impl<'a> Gen<'a> {
                 if self.enums[0].variants[0].is_empty() { "".to_string() } else { format!("({})", vec!["_"; self.enums[0].variants[0].len()].join(", ")) }).unwrap();
             self.show_impls.push(T::Enum(0));
             writeln!(src, "fn show_twice[T: Show](x: T) -> string {{ Show::show(x) + x.show() }}").unwrap();
+            writeln!(src, "trait Poke {{ fn poke(Self) -> unit; }}").unwrap();
+            writeln!(src, "impl Poke for int32 {{ fn poke(self: int32) -> unit {{ string_println(\"poke \" + int32_to_string(self)) }} }}").unwrap();
+            writeln!(src, "impl Poke for S0 {{ fn poke(self: S0) -> unit {{ string_println(\"poke S0\") }} }}").unwrap();
+            writeln!(src, "fn poke_via[T: Poke](x: T) -> unit {{ Poke::poke(x) }}").unwrap();
         }
         // functions; each may call the earlier ones only
         let nf = 2 + self.rng.below(3);
